@@ -357,6 +357,42 @@ def run_file_scenarios(ctx, n):
         ctx.case(case, nontrivial_key=None if probs else 'files %s' % json.dumps(case, sort_keys=True), sample_every=17)
 
 
+def coincidence_regions(qmax=6, mmax=5):
+    """multi-level regions exported BEFORE any query, with orders d and k <= d-2 populated by small pixel numbers
+    chosen so that arithmetic slips on the ancestor relation (p//4*(d-k), p//4**(d-k-1), p//(4*(d-k)) ...) hit a
+    stored pixel although p is not below it; a third order is populated too.  Both ways of building them: the
+    normalising additions every caller uses (k >= 2: _renorm never merges into order 1) and raw add_pixels (the
+    open finding C08-raw-add-pixels: whatever is stored must still be exported pixel for pixel), the latter also
+    with genuine overlaps."""
+    out = []
+    for d in range(3, mmax + 1):
+        m = d if d % 2 else min(mmax, d + 1)
+        for k in range(1, d - 1):
+            g = d - k
+            for q in range(0, qmax):
+                cands = set()
+                if q % g == 0:
+                    cands.update(4 * (q // g) + j for j in range(4))            # p//4*g == q
+                cands.update(q * 4 * g + j for j in range(2))                   # p//(4*g) == q
+                cands.update(q * 4 ** (g - 1) + j for j in range(2))            # p//4**(g-1) == q
+                for p in sorted(cands):
+                    if p >= 12 * 4 ** d or p // 4 ** g == q:
+                        continue
+                    third = (d - 1 if d - 1 != k else d, 12 * 4 ** (d - 1) - 1 - q)
+                    if k >= 2:
+                        out.append((m, [['N', k, [q]], ['N', d, [p]], ['N', third[0], [third[1]]]]))
+                    out.append((m, [['A', k, [q]], ['A', d, [p]], ['A', third[0], [third[1]]]]))
+        # genuine overlap, un-normalised: order-k pixel q and one of its own descendants at order d
+        out.append((d, [['A', 1, [2]], ['A', d, [2 * 4 ** (d - 1) + 1]], ['A', 2, [40]]]))
+    seen, uniq = set(), []
+    for c in out:
+        key = json.dumps(c)
+        if key not in seen:
+            seen.add(key)
+            uniq.append(c)
+    return uniq
+
+
 def gen_cases(ctx, n):
     rng = ctx.rng
     cases = list(specials())
@@ -497,6 +533,7 @@ def run(ctx):
     common.use_repo()
     translator_selfcheck(ctx)
     cases = gen_cases(ctx, 40 if ctx.quick else 400) + edge_regions(ctx, not ctx.quick)
+    cases += coincidence_regions(5, 5) if ctx.quick else coincidence_regions(12, 7)
     run_cases(ctx, cases, not ctx.quick)
     run_file_scenarios(ctx, 25 if ctx.quick else 200)
 
@@ -508,7 +545,7 @@ def search(ctx):
     saved = ctx.driver_ok
     ctx.driver_ok = False          # implementation vs Spec only
     try:
-        run_cases(ctx, gen_cases(ctx, 60) + edge_regions(ctx, False), False)
+        run_cases(ctx, gen_cases(ctx, 60) + edge_regions(ctx, False) + coincidence_regions(8, 6), False)
         run_file_scenarios(ctx, 25)
     finally:
         ctx.driver_ok = saved
